@@ -16,3 +16,4 @@ def check(A):
     R.asgi_rules(A, 'C14', buffering_rule='C14')
     R.asgi_read_rule(A, 'C14')
     R.asgi_body_rule(A, 'C14')
+    R.limit_sites_rule(A, 'C14')
